@@ -136,6 +136,10 @@ def check_tokens(chk, quick):
         if st != "ok" or impl != m:
             chk.report("model-disagrees", {"kind": "token-encode", "cid": c["cid"], "queue": c["queue"]}, impl=impl, model=m,
                        law="token = base64(utf8('<correlation id>:<reply queue>'))")
+    check_token_decode(chk, toks)
+
+
+def check_token_decode(chk, toks):
     # decode: what the API does with a presented token
     s = simmod.Sim()
     api = attach_api(s)
@@ -876,6 +880,8 @@ def run_corpus(chk, open_quirks):
             eval_callback_case(chk, c, open_quirks)
         elif c.get("kind") == "child":
             run_child_case(chk, c)
+        elif c.get("kind") == "token-decode":
+            check_token_decode(chk, [{"kind": c.get("token_kind", "corpus"), "token": c["token"], "raw": c.get("raw")}])
 
 
 def run_child_case(chk, c):
